@@ -281,8 +281,11 @@ def float_identity(*modules):
     def _float(x=0.0):
         if isinstance(x, (Sym, SymBool)):
             return x
-        if isinstance(x, np.ndarray) and x.dtype == object and x.size == 1 and isinstance(x.ravel()[0], (Sym, SymBool)):
-            return x.ravel()[0]
+        if hasattr(x, "values") and hasattr(x, "dims"):
+            x = np.asarray(x.values)
+        if isinstance(x, np.ndarray) and x.dtype == object and x.size == 1:
+            v = x.ravel()[0]
+            return v if isinstance(v, (Sym, SymBool)) else builtins.float(v)
         return builtins.float(x)
 
     olds = []
